@@ -1017,7 +1017,7 @@ class Engine:
         # classes / modules whose mutable class-level (module-level) containers are put back to their state
         # at the start of explore() before every path: paths are re-executions in ONE interpreter, and a
         # memo filled on one path (possibly with symbolic keys) must not leak into the next
-        self.isolate = list(isolate)
+        self.isolate = list(isolate) or list(DEFAULT_ISOLATE)
         # incremental=False: every feasibility check runs in a fresh solver (z3's incremental core
         # has no fpa2bv/sat preprocessing: floating-point path conditions are ~100x slower there)
         self.incremental = incremental
@@ -1336,6 +1336,22 @@ class Engine:
         terms = list(self.base) + list(pc) + [negated_goal]
         r, m = self.check_sat(terms, timeout_ms)
         return r, m
+
+
+DEFAULT_ISOLATE: List[Any] = []      # engines created without `isolate` use this (per-process) list
+
+
+def isolate_classes_of(*objs):
+    """Register the classes in the MROs of the given objects (and the modules defining them) for
+    container isolation between paths in every engine of this process created afterwards."""
+    import sys as _sys
+    for o in objs:
+        for c in (o if isinstance(o, type) else type(o)).__mro__:
+            if c is object:
+                continue
+            for x in (c, _sys.modules.get(c.__module__)):
+                if x is not None and not any(x is y for y in DEFAULT_ISOLATE):
+                    DEFAULT_ISOLATE.append(x)
 
 
 def _snapshot_containers(objs):
